@@ -254,7 +254,10 @@ class Escapes:
                         continue
                     if q == "itertools.islice" and self._islice_bounded(fi, n):
                         continue
+                    numeric_operand = q in ("int", "float") and len(n.args) == 1 and isinstance(n.args[0], ast.Name) and self._under_numeric_isinstance(mod, n, n.args[0].id)
                     for t in CALL_CATALOGUE[q]:
+                        if t is TypeError and numeric_operand:
+                            continue  # int()/float() of a value narrowed to float/Decimal/int by an enclosing isinstance test: no TypeError
                         out.append((n, t, f"{q.split('.')[-1]}({ast.unparse(n.args[0])[:40] if n.args else ''})"))
                 elif isinstance(n.func, ast.Attribute) and n.func.attr in ("feed", "close", "goahead") and self._is_html_parser(fi, n.func.value):
                     # html.parser / _markupbase raise AssertionError on malformed declarations and marked sections ('<![x]>')
@@ -827,6 +830,22 @@ class Escapes:
                                 cur[k] = Esc(e.exc, e.file, e.line, e.qualname, e.what, chain)
                                 changed = True
         self.rounds = rounds
+
+    @staticmethod
+    def _under_numeric_isinstance(mod, node: ast.AST, name: str) -> bool:  # noqa: ANN001
+        """node lies in the body of an `if isinstance(<name>, (float, Decimal, int, …))` whose types are all numeric."""
+        child = node
+        for a in mod.ancestors(node):
+            if isinstance(a, ast.If) and any(child is b or any(child is x for x in ast.walk(b)) for b in a.body):
+                t = a.test
+                if isinstance(t, ast.Call) and isinstance(t.func, ast.Name) and t.func.id == "isinstance" and len(t.args) == 2 and isinstance(t.args[0], ast.Name) and t.args[0].id == name:
+                    types = t.args[1].elts if isinstance(t.args[1], ast.Tuple) else [t.args[1]]
+                    if types and all(ast.unparse(x).split(".")[-1] in ("float", "Decimal", "int", "bool", "Fraction") for x in types):
+                        return True
+            if isinstance(a, (ast.FunctionDef, ast.AsyncFunctionDef)):
+                break
+            child = a
+        return False
 
     def escapes_of(self, fi: FunctionInfo) -> list[Esc]:
         return sorted(self.esc.get(fi.fid, {}).values(), key=lambda e: (e.file, e.line, e.exc.__name__))
